@@ -34,6 +34,32 @@ theorem src_thresholds (t s : Rat) :
     thrInitial = Thr.pinf ∧ thrSentinel = Thr.ninf ∧ TradeoffSrc.midThreshold t s = (t + s) / 2 :=
   ⟨src_thrInitial, src_thrSentinel, src_midThreshold t s⟩
 
+/-- **betweenness is all the sweep needs of a stored threshold**: two thresholds strictly between the same pair of
+    consecutive score levels `lo < hi` define the same `>` rule and the same `<` rule on every score that is not strictly
+    between the two levels (in particular on every training score) — so `sweep_point_sound`, and with it `parity_*`, hold
+    for ANY stored threshold `θ` with `lo < θ < hi`, not only for the exact midpoint -/
+theorem threshold_betweenness_suffices (θ θ' lo hi s : Rat) (h : lo < θ ∧ θ < hi) (h' : lo < θ' ∧ θ' < hi)
+    (hs : s ≤ lo ∨ hi ≤ s) :
+    (Thr.fin θ).below s = (Thr.fin θ').below s ∧ (Thr.fin θ).above s = (Thr.fin θ').above s := by
+  simp only [Thr.below, Thr.above, src_opGt_eq, src_opLt_eq]
+  rcases hs with hs | hs
+  · exact ⟨by rw [decide_eq_false (by linarith), decide_eq_false (by linarith)],
+           by rw [decide_eq_true (by linarith), decide_eq_true (by linarith)]⟩
+  · exact ⟨by rw [decide_eq_true (by linarith), decide_eq_true (by linarith)],
+           by rw [decide_eq_false (by linarith), decide_eq_false (by linarith)]⟩
+
+/-- in exact arithmetic the lifted midpoint IS strictly between two distinct scores -/
+theorem midpoint_strictly_between (t s : Rat) (h : s < t) :
+    s < TradeoffSrc.midThreshold t s ∧ TradeoffSrc.midThreshold t s < t := by
+  rw [src_midThreshold]; constructor <;> linarith
+
+/-- ... and the hypothesis is sharp: a threshold ON the upper level (what binary64 rounding of the midpoint of two
+    adjacent doubles produces, known finding F18) does not select that level with `>`, a threshold on the lower level
+    does not select it with `<` -/
+theorem threshold_on_score_breaks_rule (lo hi : Rat) :
+    (Thr.fin hi).below hi = false ∧ (Thr.fin lo).above lo = false := by
+  simp [Thr.below, Thr.above, src_opGt_eq, src_opLt_eq]
+
 /-- interpolation index: `searchsorted(side="right") - 1`, and one more step to the left when a grid value with index
     ≥ 1 equals the vertex found -/
 theorem src_interp_index (xs : List Rat) (i : Nat) (g : Rat) :
